@@ -332,3 +332,28 @@ Definition step2 (q : q2) (a : action) : option q2 :=
 Definition init2 (cup : option N) : q2 :=
   {| cup2 := match cup with Some _ => true | None => false end; in2_ := I2Out; f2_ := F2None;
      lu2 := None; apps2 := None; same2 := false; reason2 := false |}.
+
+(* ------------------------------------------------------------------ C03 (run-time monitor) *)
+(* With a CUP handler configured every request targets the configured URL with exactly the added
+   cup2key=<latest id>:<64 hex> parameter, and no nonce is used twice in the whole history. *)
+Definition lastn {A} (n : nat) (l : list A) : list A := rev (firstn n (rev l)).
+Record q3 := { url3 : urlparts; kid3 : option N; seen3 : list bytes }.
+Definition step3 (q : q3) (a : action) : option q3 :=
+  match a with
+  | AHttp w _ =>
+      match kid3 q with
+      | Some kid =>
+          let nonce := lastn 64 (w_uri w) in
+          if bytes_eqb (w_uri w) (u_prefix (url3 q) ++ append_query (u_path (url3 q)) (u_query (url3 q)) (s2b "cup2key") (print_dec kid ++ 58%N :: nonce))
+             && Nat.eqb (length nonce) 64 && negb (existsb (bytes_eqb nonce) (seen3 q))
+          then Some {| url3 := url3 q; kid3 := kid3 q; seen3 := nonce :: seen3 q |} else None
+      | None => if bytes_eqb (w_uri w) (plain_uri (url3 q)) then Some q else None
+      end
+  | AInstaller (ICreatePlan _ meta _ has_sig) _ =>
+      match kid3 q, meta with
+      | Some _, Some true => if has_sig then Some q else None
+      | None, None => if has_sig then None else Some q
+      | _, _ => None
+      end
+  | _ => Some q
+  end.
